@@ -141,6 +141,9 @@ func (s *Set) getSiblingTemplate(templatePath, siblingPath string, cacheAfterPar
 	if !path.IsAbs(templatePath) {
 		siblingDir := path.Dir(siblingPath)
 		templatePath = path.Join(siblingDir, templatePath)
+	} else {
+		// absolute paths must be lexically clean, too, no matter how they were spelt
+		templatePath = path.Clean(templatePath)
 	}
 	return s.getTemplate(templatePath, cacheAfterParsing)
 }
